@@ -14,7 +14,7 @@
 (* harness re-uses the compiled expression across documents).  Oracle:     *)
 (* Eval / Builtins.                                                        *)
 (***************************************************************************)
-EXTENDS JMES, Json, Toks, DocsCall, SequencesExt, CallTypes
+EXTENDS JMES, Json, Toks, DocsCall, SequencesExt, CallTypes, HostileKinds
 CONSTANTS Emit, Prop
 
 \* the call pool plus literals beyond the sizes at which an implementation may
@@ -76,7 +76,13 @@ Check == idx > 0 =>
                 multi |-> { [expr |-> Render(ts), adm |-> Admissible(ts, doc)] : ts \in overArr }]
       caseB(k) == [p |-> Prop, kind |-> "search", doc |-> some[k],
                    multi |-> { [expr |-> Render(ts), adm |-> Admissible(ts, some[k])] : ts \in calls }]
-  IN /\ Emit => PrintT("CASE " \o ToJson(caseA))
+      \* property C03: the current node is a hostile Go value (not JSON, not finite, not UTF-8 ...) in
+      \* every argument position of every function: nothing is claimed about the outcome but that the
+      \* call returns and a returned error formats
+      caseH(h) == [p |-> Prop, kind |-> "search", doc |-> JInt(1), carriers |-> <<Hostile[h]>>,
+                   multi |-> { [expr |-> Render(ts), adm |-> {Open}] : ts \in calls }]
+  IN /\ (Emit /\ Prop = "C03") => \A h \in 1..Len(Hostile) : PrintT("CASE " \o ToJson(caseH(h)))
+     /\ Emit => PrintT("CASE " \o ToJson(caseA))
      /\ Emit => \A k \in 1..Len(some) : PrintT("CASE " \o ToJson(caseB(k)))
      /\ Named(Len(elems) >= 2, "SeveralElements")
      \* a call on an element alone and inside the projection agree (when neither fails)
